@@ -1231,7 +1231,7 @@ def rule_kwview(ctx):
     passed on by name to every callee that has a parameter of that name."""
     R = "C03.KWVIEW"
     n = 0
-    for f in ctx.program.all_funcs():
+    for f in ctx.program.all_funcs(include_new=True):
         if not f.kwarg or f.qual == "util.filter_kwargs":
             continue
         s = ctx.S.get(f.qual)
@@ -1270,6 +1270,24 @@ def rule_kwview(ctx):
                 if p in g.all_params and p in g.defaults:
                     passed = p in named or p in posargs
                     yield ob(R, f, "%s:explicit[%s]->%s@%d" % (f.qual, p, g.qual, _ordinal(s, c)), passed, "%s declares %s itself and passes it on to %s by name" % (f.qual, p, g.qual) if passed else "%s declares the keyword %s itself, so it no longer travels in **%s, and this call does not pass it: %s always runs with its own default" % (f.qual, p, f.kwarg, g.qual), node=c.node)
+    # a helper introduced between evaluate()/metrics() and the metric functions must be handed the keywords too
+    from ..known import KNOWN_FUNCS
+
+    for f in ctx.program.all_funcs(include_new=True):
+        if not f.kwarg:
+            continue
+        s = ctx.S.get(f.qual)
+        for c in s.calls():
+            if c.d.get("via_filter") or not c.callee or not ctx.program.has_func(c.callee) or c.callee in KNOWN_FUNCS:
+                continue
+            g = ctx.program.func(c.callee)
+            if not g.kwarg:
+                continue
+            star = [v for k, v in c.kw if k == "**"]
+            view = _kw_view(star[0], f.kwarg, ctx) if star else None
+            good = view is not None and view[0] == "full"
+            yield ob(R, f, "%s:helper:%s@%d" % (f.qual, g.qual, _ordinal(s, c)), good, "the helper %s(..., **%s) receives the caller's keywords" % (g.qual, g.kwarg) if good else "the helper %s accepts **%s but this call does not pass **%s on: keywords given to %s never reach the metrics computed there" % (g.qual, g.kwarg, f.kwarg, f.qual), node=c.node)
+            n += 1
     yield ob(R, "mir_eval/", "kwview:census", True, "%d filter_kwargs call sites examined" % n)
 
 
